@@ -1,21 +1,22 @@
 (* Runs the extracted Coq models on the case lines written by the Rust harnesses.
    One observation line per case line, in the canonical format the harness also prints. *)
+module BZ = Z (* zarith, before the extracted module Z shadows it *)
 open Model
 
-let rec pos_to_z (p : positive) : Z.t =
+let rec pos_to_z (p : positive) : BZ.t =
   match p with
-  | XH -> Z.one
-  | XO q -> Z.shift_left (pos_to_z q) 1
-  | XI q -> Z.succ (Z.shift_left (pos_to_z q) 1)
-let n_to_z = function N0 -> Z.zero | Npos p -> pos_to_z p
-let rec z_to_pos (z : Z.t) : positive =
-  if Z.equal z Z.one then XH
+  | XH -> BZ.one
+  | XO q -> BZ.shift_left (pos_to_z q) 1
+  | XI q -> BZ.succ (BZ.shift_left (pos_to_z q) 1)
+let n_to_z = function N0 -> BZ.zero | Npos p -> pos_to_z p
+let rec z_to_pos (z : BZ.t) : positive =
+  if BZ.equal z BZ.one then XH
   else
-    let q = Z.shift_right z 1 in
-    if Z.testbit z 0 then XI (z_to_pos q) else XO (z_to_pos q)
-let z_to_n z = if Z.sign z = 0 then N0 else Npos (z_to_pos z)
-let n_of_int i = z_to_n (Z.of_int i)
-let n_str n = Z.to_string (n_to_z n)
+    let q = BZ.shift_right z 1 in
+    if BZ.testbit z 0 then XI (z_to_pos q) else XO (z_to_pos q)
+let z_to_n z = if BZ.sign z = 0 then N0 else Npos (z_to_pos z)
+let n_of_int i = z_to_n (BZ.of_int i)
+let n_str n = BZ.to_string (n_to_z n)
 
 let byte_tbl = Array.init 256 n_of_int
 let unhex (s : string) : n list =
@@ -31,6 +32,30 @@ let unhex (s : string) : n list =
 
 let obs_list (l : n list) = String.concat " " (List.map n_str l)
 
+let cb_entry = function
+  | TS (c, tr, t) -> Printf.sprintf "T%s.%d.%s" (n_str c) (if tr then 1 else 0) (n_str t)
+  | MK (top, c) -> Printf.sprintf "M%d.%s" (if top then 1 else 0) (n_str c)
+let cb_obs ((es, r) : entry list * n list) =
+  String.concat " " (string_of_int (List.length es) :: string_of_int (List.length r) :: List.map cb_entry es)
+
+let zz_to_z = function Z0 -> BZ.zero | Zpos p -> pos_to_z p | Zneg p -> BZ.neg (pos_to_z p)
+let zz_str z = BZ.to_string (zz_to_z z)
+let hexn (l : n list) = if l = [] then "-" else String.concat "" (List.map (fun b -> Printf.sprintf "%02x" (BZ.to_int (n_to_z b))) l)
+let bit b = if b then "1" else "0"
+
+let adc_obs (p : adc) : string =
+  let chan = BZ.to_int (n_to_z p.a_chan) in
+  let kind, ch = if chan < 128 then (16, chan) else (32, chan - 128) in
+  let board, off, build, wave =
+    match p.a_long with
+    | None -> ("-", "-", "-", [])
+    | Some lg -> (hexn lg.al_mac, zz_str lg.al_offset, n_str lg.al_build, lg.al_wave)
+  in
+  Printf.sprintf "ok %s %s %d %d %s %s %s %s %s %s %s %s %s [%s]" (n_str p.a_trig) (n_str p.a_module) kind ch
+    (n_str p.a_req) (n_str p.a_ts) board off build (zz_str p.a_baseline) (n_str p.a_keep_last) (bit p.a_keep_bit)
+    (bit p.a_supp)
+    (String.concat "," (List.map zz_str wave))
+
 let handle (line : string) : string =
   match String.split_on_char ' ' line with
   | [ "trg"; h ] -> (
@@ -38,6 +63,14 @@ let handle (line : string) : string =
       | Ok p -> "ok " ^ obs_list (trg_obs p)
       | Err _ -> "err"
       | Panic -> "panic")
+  | [ "adc"; h ] -> (
+      (* both overflow modes must agree (C02_adc_no_wrap); the checked mode is printed *)
+      match adc_decode adc_macs Checked (unhex h) with
+      | Ok p -> adc_obs p
+      | Err _ -> "err"
+      | Panic -> "panic")
+  | [ "cb"; h ] -> cb_obs (cb_fifo (unhex h))
+  | [ "cbfeed"; hs ] -> cb_obs (cb_feed [] (List.map unhex (String.split_on_char ',' hs)))
   | _ -> "unknown-case"
 
 let () =
